@@ -657,7 +657,9 @@ func (c *Conn) heartBeat(ctx context.Context) {
 		case error:
 			// TODO: should we do something here?
 		default:
-			panic(fmt.Sprintf("gocql: unknown frame in response to options: %T", resp))
+			// a frame of an unexpected kind must not take the process down, count it as a failed heartbeat
+			c.logger.Printf("gocql: unknown frame in response to options: %T", resp)
+			failures++
 		}
 	}
 }
